@@ -121,7 +121,11 @@ def run(ctx):
         if target == 'DEACTIVATED':
             ctx.check(op == 'REVOKE', 'C04.R2', key + '|only-revoke', site, 'DEACTIVATED stored by Revoke', 'a handler other than Revoke deactivates an object')
         if target == 'COMPROMISED' or (target == 'DESTROYED_COMPROMISED' and op == 'REVOKE'):
-            comp = False
+            # the reasons possible on the paths that reach this store (tracked by the interpreter through every comparison with
+            # RevocationReasonCode members, wherever it sits) ...
+            rsets = [e_.get('reasons') for e_ in ai.events if e_['kind'] == 'state_store' and e_['ctx'][0] == fn and e_['line'] == line and e_['target'] == target]
+            comp = bool(rsets) and all(r_ is not None and set(r_) <= {'KEY_COMPROMISE', 'CA_COMPROMISE'} for r_ in rsets)
+            # ... or, equivalently, a dominating test at the store itself
             for t, lab in dominating_edges(g, sn):
                 p = cmp_parts(t.stmt)
                 if p and p[1] in ('Is', 'Eq') and lab == 'T' and enum_member(p[2], 'RevocationReasonCode') and enum_member(p[2])[1] in ('KEY_COMPROMISE', 'CA_COMPROMISE'):
